@@ -13,27 +13,31 @@
 -/
 namespace NemoVerif.Refs
 
-inductive Lab where
-  | leaf : Nat → Lab
-  | seq : List Lab → Lab
-  | node : Nat → Nat → List Lab → Lab
+/-- `σ` = scalar payloads, `τ` = everything an object carries besides its children (class, keys, …);
+    the discipline does not depend on them. -/
+inductive Lab (σ τ : Type) where
+  | leaf : σ → Lab σ τ
+  | seq : List (Lab σ τ) → Lab σ τ            -- an un-registered sequence (a list before fixes/C11-shared-lists.diff)
+  | node : Nat → τ → List (Lab σ τ) → Lab σ τ
   deriving Repr, Inhabited
 
-inductive Enc where
-  | leaf : Nat → Enc
-  | seq : List Enc → Enc
-  | defn : Nat → Nat → List Enc → Enc
-  | ref : Nat → Enc
+inductive Enc (σ τ : Type) where
+  | leaf : σ → Enc σ τ
+  | seq : List (Enc σ τ) → Enc σ τ
+  | defn : Nat → τ → List (Enc σ τ) → Enc σ τ
+  | ref : Nat → Enc σ τ
   deriving Repr, Inhabited
+
+variable {σ τ : Type}
 
 mutual
-def encodeS : List Nat → Lab → Enc × List Nat
+def encodeS : List Nat → Lab σ τ → Enc σ τ × List Nat
   | refs, .leaf a => (.leaf a, refs)
   | refs, .seq xs => let r := encodeSList refs xs; (.seq r.1, r.2)
   | refs, .node i t kids =>
     if i ∈ refs then (.ref i, refs)
     else let r := encodeSList refs kids; (.defn i t r.1, i :: r.2)
-def encodeSList : List Nat → List Lab → List Enc × List Nat
+def encodeSList : List Nat → List (Lab σ τ) → List (Enc σ τ) × List Nat
   | refs, [] => ([], refs)
   | refs, x :: xs =>
     let r1 := encodeS refs x
@@ -41,13 +45,13 @@ def encodeSList : List Nat → List Lab → List Enc × List Nat
     (r1.1 :: r2.1, r2.2)
 end
 
-def lookup (tbl : List (Nat × Lab)) (i : Nat) : Option Lab :=
+def lookup (tbl : List (Nat × Lab σ τ)) (i : Nat) : Option (Lab σ τ) :=
   match tbl.find? (·.1 == i) with
   | some e => some e.2
   | none => none
 
 mutual
-def decodeS : List (Nat × Lab) → Enc → Option (Lab × List (Nat × Lab))
+def decodeS : List (Nat × Lab σ τ) → Enc σ τ → Option (Lab σ τ × List (Nat × Lab σ τ))
   | tbl, .leaf a => some (.leaf a, tbl)
   | tbl, .seq ys => match decodeSList tbl ys with
     | some r => some (.seq r.1, r.2)
@@ -58,7 +62,7 @@ def decodeS : List (Nat × Lab) → Enc → Option (Lab × List (Nat × Lab))
   | tbl, .ref i => match lookup tbl i with
     | some v => some (v, tbl)
     | none => none
-def decodeSList : List (Nat × Lab) → List Enc → Option (List Lab × List (Nat × Lab))
+def decodeSList : List (Nat × Lab σ τ) → List (Enc σ τ) → Option (List (Lab σ τ) × List (Nat × Lab σ τ))
   | tbl, [] => some ([], tbl)
   | tbl, y :: ys => match decodeS tbl y with
     | some r1 => match decodeSList r1.2 ys with
@@ -68,17 +72,17 @@ def decodeSList : List (Nat × Lab) → List Enc → Option (List Lab × List (N
 end
 
 mutual
-def Consistent (H : Nat → Lab) : Lab → Prop
+def Consistent (H : Nat → Lab σ τ) : Lab σ τ → Prop
   | .leaf _ => True
   | .seq xs => ConsistentList H xs
   | .node i t kids => H i = .node i t kids ∧ ConsistentList H kids
-def ConsistentList (H : Nat → Lab) : List Lab → Prop
+def ConsistentList (H : Nat → Lab σ τ) : List (Lab σ τ) → Prop
   | [] => True
   | x :: xs => Consistent H x ∧ ConsistentList H xs
 end
 
 /-- decode-side table agrees with the encode-side `refs` and holds the canonical objects -/
-def Agree (H : Nat → Lab) (refs : List Nat) (tbl : List (Nat × Lab)) : Prop :=
+def Agree (H : Nat → Lab σ τ) (refs : List Nat) (tbl : List (Nat × Lab σ τ)) : Prop :=
   ∀ i, (i ∈ refs → lookup tbl i = some (H i)) ∧ (i ∉ refs → lookup tbl i = none)
 
 
